@@ -1,3 +1,4 @@
+#![cfg_attr(kani, feature(read_buf, core_io_borrowed_buf))]
 #![allow(dead_code)]
 #![allow(unused_imports)]
 pub mod env;
